@@ -5,10 +5,11 @@
 #   (VERIF_REPO) with the patch applied and records everything in the seed's meta.json under "audit".
 # usage: tools/audit_seeds.sh [seed-dir-names...]   (default: all)
 set -u
+VHOME=$(cd "$(dirname "$0")/.." && pwd)   # checks are taken from the tree this script lives in; results go to /verif/seeded
 export GOFLAGS=-mod=mod GOPROXY=off GOSUMDB=off
 cd /verif
 seeds=${@:-$(ls seeded | grep -E '^C[0-9]+-')}
-wt=/var/tmp/seed-audit-wt
+wt=${AUDIT_WT:-/var/tmp/seed-audit-wt}
 rm -rf $wt; git -C /repo worktree prune; git -C /repo worktree add --detach $wt HEAD -q || exit 2
 flaky='TestPublishSubscribe_persistent|TestPublishSubscribe_race_condition_on_subscribe|TestMapExpiringKeyRepositoryCleanup|TestRequestReply_parallel_same_handler'
 for s in $seeds; do
@@ -35,7 +36,7 @@ for s in $seeds; do
   verdict="not run"; rule=""
   if $applies && $builds; then
     cd $wt; git apply $d/patch.diff
-    out=$(cd /verif && VERIF_REPO=$wt VERIF_EVIDENCE_DIR=/var/tmp/seed-evidence VERIF_REPLAY_DIR=/var/tmp/seed-replays ./check $prop quick 2>&1); rc=$?
+    out=$(cd "$VHOME" && VERIF_REPO=$wt VERIF_EVIDENCE_DIR=/var/tmp/seed-evidence-$$ VERIF_REPLAY_DIR=/var/tmp/seed-replays-$$ ./check $prop quick 2>&1); rc=$?
     git checkout -q -- .; git clean -fdq
     rule=$(echo "$out" | grep -m1 -oE "^violation: rule=[A-Z0-9.]+ sig='[^']*'|^violation: rule=[A-Z0-9.]+ sig=\"[^\"]*\"" | sed 's/^violation: //')
     case $rc in 0) verdict="MISSED";; 1) verdict="DETECTED";; *) verdict="MACHINERY($rc)";; esac
